@@ -165,6 +165,8 @@ type caseT struct {
 	Final     bool   `json:"bfinal_ending,omitempty"` // DEFLATE stream ends with a BFINAL=1 block (RFC 7692 7.2.3.4)
 	Op        int    `json:"op,omitempty"`            // control opcode
 	Via       string `json:"via,omitempty"`           // control-send: "" = WriteMessage | frame = WriteFrame | close = WriteClose
+	// Between (control-recv): the control frame arrives between the fragments of a data message
+	Between bool `json:"between_fragments,omitempty"`
 	// FramesOnly (plain, one frame): the endpoint has a data-frame callback and no message callback
 	FramesOnly bool        `json:"frames_only,omitempty"`
 	Seg        nbdrive.Seg `json:"seg"`
@@ -619,6 +621,17 @@ func runControlRecv(c caseT) {
 	}
 	f := wsref.Frame{Fin: true, Opcode: byte(c.Op), Masked: masked, Key: keyGen(rng)(), Payload: p}
 	frames := []wsref.Frame{f, {Fin: true, Opcode: wsref.OpBinary, Masked: masked, Key: [4]byte{1, 2, 3, 4}, Payload: []byte(sentinel)}}
+	wantMsgs := 1
+	if c.Between {
+		// the control frame arrives while a fragmented message is in progress
+		frames = []wsref.Frame{
+			{Fin: false, Opcode: wsref.OpBinary, Masked: masked, Key: [4]byte{9, 8, 7, 6}, Payload: []byte("ab")},
+			f,
+			{Fin: true, Opcode: wsref.OpCont, Masked: masked, Key: [4]byte{5, 4, 3, 2}, Payload: []byte("cd")},
+			{Fin: true, Opcode: wsref.OpBinary, Masked: masked, Key: [4]byte{1, 2, 3, 4}, Payload: []byte(sentinel)},
+		}
+		wantMsgs = 2
+	}
 	o := drive(c, wsref.Encode(frames))
 	how := "control-recv"
 	ok := true
@@ -636,12 +649,12 @@ func runControlRecv(c caseT) {
 	} else {
 		switch c.Op {
 		case wsref.OpPing:
-			if o.pongs != 1 || o.e.Failed() || len(o.msgs) != 1 {
+			if o.pongs != 1 || o.e.Failed() || len(o.msgs) != wantMsgs {
 				violate("c15:control-recv:within-125-not-processed", fmt.Sprintf("ping with %d bytes\n%s", c.Size, o.describe()), c, o.wire, o.cuts)
 				ok = false
 			}
 		case wsref.OpPong:
-			if o.e.Failed() || len(o.msgs) != 1 {
+			if o.e.Failed() || len(o.msgs) != wantMsgs {
 				violate("c15:control-recv:within-125-not-processed", fmt.Sprintf("pong with %d bytes\n%s", c.Size, o.describe()), c, o.wire, o.cuts)
 				ok = false
 			}
@@ -903,6 +916,7 @@ func main() {
 						}
 						rng := run.Rand("c15-ctl", idx+1)
 						step(caseT{Kind: "control-recv", L: 1 << 22, Pool: pl, Client: client, Op: op, Size: size, FragSeed: rng.Int63(), Seg: segFor(rng, size)}, false)
+						step(caseT{Kind: "control-recv", L: 1 << 22, Pool: pl, Client: client, Op: op, Size: size, FragSeed: rng.Int63(), Seg: segFor(rng, size), Between: true}, false)
 					}
 				}
 			}
